@@ -687,13 +687,15 @@ class CallMixin:
         self.fact(st, forall([a, b], z3.Implies(z3.And(0 <= a, a < b, b < l_len(R)), s(a) < s(b)),
                                 patterns=[z3.MultiPattern(s(a), s(b))]))
         self.fact(st, forall([a], z3.Implies(z3.And(0 <= a, a < n, sub(cond, a)),
-                                                z3.And(0 <= inv(a), inv(a) < l_len(R), s(inv(a)) == a)),
+                                                z3.And(0 <= inv(a), inv(a) < l_len(R), s(inv(a)) == a, S.Tr(inv(a)))),
                                 patterns=[inv(a)] if True else None))
         # completeness trigger on the source element as well
         self.fact(st, forall([a], z3.Implies(z3.And(0 <= a, a < n, sub(cond, a)),
-                                                z3.And(0 <= inv(a), inv(a) < l_len(R), s(inv(a)) == a)),
+                                                z3.And(0 <= inv(a), inv(a) < l_len(R), s(inv(a)) == a, S.Tr(inv(a)))),
                                 patterns=[l_at(src.t, a)]))
         self.last_filter = dict(R=R, s=s, inv=inv, src=src, cond=cond, j=j)
+        st.ghost = dict(st.ghost)
+        st.ghost["last_filter"] = self.last_filter  # per path (the executor-wide attribute is overwritten by other paths)
         return Val(ty, R)
 
     def dict_comp_list(self, node, g, st):
@@ -742,6 +744,33 @@ class CallMixin:
         for c in range(m):
             self.fact(st, forall([a], z3.Implies(z3.And(0 <= a, a < n), l_at(R, m * a + c) == t_get(l_at(src.t, a), c)), patterns=[l_at(src.t, a)]))
         return Val(ty, R)
+
+    def b_zip(self, node, st):
+        """zip(a, b) consumed as a sequence: the list of pairs, as long as the shorter argument"""
+        vals = [self.eval(a, st) for a in node.args]
+        if len(vals) != 2 or not all(isinstance(v.ty, TList) for v in vals):
+            raise Unsupported("zip of %s" % [str(v.ty) for v in vals], node)
+        a, b = vals
+        ety = TTuple([a.ty.elem, b.ty.elem])
+        ty = TList(ety)
+        Z = z3.Const(fresh_name("zipped"), sort_of(ty))
+        j = z3.Int(fresh_name("j"))
+        n = z3.If(l_len(a.t) <= l_len(b.t), l_len(a.t), l_len(b.t))
+        self.fact(st, l_len(Z) == n)
+        self.fact(st, forall([j], z3.Implies(z3.And(0 <= j, j < n), l_at(Z, j) == t_mk(ety, l_at(a.t, j), l_at(b.t, j))), patterns=[l_at(Z, j)]))
+        return Val(ty, Z)
+
+    def b___filter_indices__(self, node, st):
+        """ghost only: for the filtering comprehension evaluated last on this path, the source index behind each element of its result"""
+        lf = st.ghost.get("last_filter")
+        if lf is None:
+            raise Unsupported("__filter_indices__ without a filtering comprehension before it", node)
+        ty = TList(TInt)
+        G = z3.Const(fresh_name("filter_indices"), sort_of(ty))
+        a = z3.Int(fresh_name("a"))
+        self.fact(st, l_len(G) == l_len(lf["R"]))
+        self.fact(st, forall([a], z3.Implies(z3.And(0 <= a, a < l_len(G)), l_at(G, a) == lf["s"](a)), patterns=[l_at(G, a)]))
+        return Val(ty, G)
 
     def b___choose__(self, node, st):
         """ghost only: some element of a set (an arbitrary value when the set is empty)"""
